@@ -270,9 +270,12 @@ class ResolverMixin:  # pylint: disable=too-few-public-methods
         for obj_name, obj in superclass_objects.items():
             if obj_name not in new_objects:
                 new_obj = obj.copy()
-                new_obj.propagated = True
-                assert obj.class_origin
-                new_obj.class_origin = obj.class_origin
+                # Parameters of an overridden method have no propagated
+                # and class_origin attributes
+                if not isinstance(new_obj, CIMParameter):
+                    new_obj.propagated = True
+                    assert obj.class_origin
+                    new_obj.class_origin = obj.class_origin
                 self._set_inherited_qualifiers(new_obj)
                 if isinstance(new_obj, CIMMethod):
                     for param in new_obj.parameters.values():
@@ -308,12 +311,16 @@ class ResolverMixin:  # pylint: disable=too-few-public-methods
         if propagated:
             assert superclass is not None
 
-        new_obj.propagated = propagated
-        if propagated:
+        # Parameters have no propagated and class_origin attributes
+        if isinstance(new_obj, CIMParameter):
+            pass
+        elif propagated:
             assert inherited_obj is not None
+            new_obj.propagated = True
             new_obj.class_origin = inherited_obj.class_origin
         else:
             assert inherited_obj is None
+            new_obj.propagated = False
             new_obj.class_origin = new_class.classname
         self._resolve_qualifiers(new_obj.qualifiers,
                                  inherited_obj_qual,
